@@ -37,13 +37,25 @@ def _eval_shard_ext(args):
     return (total, mm, bad), out
 
 
-FILTER_AXIOMS = set(vlib.FLOAT_AXIOMS) | {
-    # classical reals, pulled in by Flocq's real-number rounding theory
-    "ClassicalDedekindReals.sig_forall_dec", "sig_forall_dec",
-    "ClassicalDedekindReals.sig_not_dec", "sig_not_dec",
-    "FunctionalExtensionality.functional_extensionality_dep", "functional_extensionality_dep",
-    "Classical_Prop.classic", "classic",
+# Everything `Print Assumptions` may list for the theorems of Properties/C13.v.  All of it is
+# Coq standard library / kernel: none is declared by this development.
+PRIMITIVES = {  # kernel primitive types and operations (listed by Print Assumptions, not axioms)
+    "PrimFloat.abs", "PrimFloat.add", "PrimFloat.div", "PrimFloat.eqb", "PrimFloat.float", "PrimFloat.frshiftexp",
+    "PrimFloat.ldshiftexp", "PrimFloat.leb", "PrimFloat.ltb", "PrimFloat.mul", "PrimFloat.next_up", "PrimFloat.next_down",
+    "PrimFloat.normfr_mantissa", "PrimFloat.of_uint63", "PrimFloat.opp", "PrimFloat.sqrt", "PrimFloat.sub",
+    "PrimFloat.compare", "PrimFloat.classify",
+    "PrimInt63.add", "PrimInt63.eqb", "PrimInt63.int", "PrimInt63.land", "PrimInt63.leb", "PrimInt63.lor", "PrimInt63.lsl",
+    "PrimInt63.lsr", "PrimInt63.ltb", "PrimInt63.sub", "PrimInt63.mul", "PrimInt63.div", "PrimInt63.mod", "PrimInt63.lxor",
 }
+STDLIB_FLOAT_AXIOMS = {"FloatAxioms." + a for a in vlib.FLOAT_AXIOMS}
+STDLIB_UINT63_AXIOMS = {"Uint63." + a for a in (
+    "add_spec", "sub_spec", "mul_spec", "eqb_correct", "eqb_refl", "leb_spec", "ltb_spec", "lor_spec", "land_spec",
+    "lsl_spec", "lsr_spec", "lxor_spec", "of_to_Z", "div_spec", "mod_spec")}
+STDLIB_REAL_AXIOMS = {  # classical real numbers, used by Flocq's rounding theory
+    "ClassicalDedekindReals.sig_forall_dec", "ClassicalDedekindReals.sig_not_dec",
+    "FunctionalExtensionality.functional_extensionality_dep", "Classical_Prop.classic",
+}
+FILTER_AXIOMS = PRIMITIVES | STDLIB_FLOAT_AXIOMS | STDLIB_UINT63_AXIOMS | STDLIB_REAL_AXIOMS | {"Axioms"}  # "Axioms" = the header line
 
 
 class S(Spec):
